@@ -567,6 +567,23 @@ def _child_race(world, cmd):
         return builtins.open(file, mode, *a, **kw)
     PS.pickle = PickleProxy()
     PS.open = gated_open
+    if kind == "at_save":
+        # the k-th top-level ProductStack.save of writer A (k = 0: the save() that ends a rebuilding constructor):
+        # writer B's command lands between A's scan of the database and A's save
+        real_save = PS.ProductStack.save
+        depth = {"n": 0, "seen": 0}
+
+        def gated_save(self, *a, **kw):
+            if depth["n"] == 0:
+                if st["fired"] is None and depth["seen"] == k:
+                    run_b("at_save#%d" % k)
+                depth["seen"] += 1
+            depth["n"] += 1
+            try:
+                return real_save(self, *a, **kw)
+            finally:
+                depth["n"] -= 1
+        PS.ProductStack.save = gated_save
     fl = cmd.get("flavor", "Linux")
     import time
     n0 = 0
